@@ -293,17 +293,21 @@ func FieldToString(fieldType FieldType, value []byte) *string {
 	case TypeString:
 		return BytesToString(value)
 	case TypeBool:
-		boolVal := FieldToBool(fieldType, value)
-		result := strconv.FormatBool(*boolVal)
-		return &result
+		// the typed readers return nil for a value which is shorter than its type promises
+		if boolVal := FieldToBool(fieldType, value); boolVal != nil {
+			result := strconv.FormatBool(*boolVal)
+			return &result
+		}
 	case TypeInt32, TypeInt64:
-		intVal := FieldToInt64(fieldType, value)
-		result := strconv.Itoa(int(*intVal))
-		return &result
+		if intVal := FieldToInt64(fieldType, value); intVal != nil {
+			result := strconv.Itoa(int(*intVal))
+			return &result
+		}
 	case TypeFloat64:
-		floatVal := FieldToFloat64(fieldType, value)
-		result := strconv.FormatFloat(*floatVal, 'f', -1, 64)
-		return &result
+		if floatVal := FieldToFloat64(fieldType, value); floatVal != nil {
+			result := strconv.FormatFloat(*floatVal, 'f', -1, 64)
+			return &result
+		}
 	case TypeTime:
 		if timeVal := FieldToDatetime(fieldType, value, "string"); timeVal != nil {
 			result, err := timeVal.MarshalText()
